@@ -233,7 +233,9 @@ def check_proofs(prop, namespace="Shk"):
     os.makedirs(BUILD, exist_ok=True)
     with open(ap, "w") as f:
         f.write(audit)
-    rc, out = sh(["lake", "env", "lean", ap], cwd=LEAN)
+    # (under the build lock: another check of the same /verif may be rebuilding modules the audit imports)
+    with build_lock():
+        rc, out = sh(["lake", "env", "lean", ap], cwd=LEAN)
     if rc != 0:
         res["ok"] = False
         res["output"] = "axiom audit failed:\n" + out
@@ -260,7 +262,8 @@ def check_proofs(prop, namespace="Shk"):
 
 
 def leanchecker(prop):
-    rc, out = sh(["lake", "env", "leanchecker", "ShkModel.Props.%s" % prop], cwd=LEAN)
+    with build_lock():
+        rc, out = sh(["lake", "env", "leanchecker", "ShkModel.Props.%s" % prop], cwd=LEAN)
     return rc == 0, out
 
 
